@@ -6,6 +6,7 @@ import (
 	"encoding/binary"
 	"errors"
 	"fmt"
+	"maps"
 	"math"
 	"slices"
 	"sort"
@@ -904,6 +905,20 @@ func extractDataRegexes(qs query.ConditionsSet, tagDetails map[string]query.TagD
 func SearchStreams(ctx context.Context, indexes []*Reader, limitIDs *bitmask.LongBitmask, refTime time.Time, qs query.ConditionsSet, grouping *query.Grouping, sorting []query.Sorting, limit, skip uint, tagDetails map[string]query.TagDetails, converters map[string]ConverterAccess, extractRegexes bool) ([]*Stream, bool, *DataRegexes, error) {
 	if len(qs) == 0 {
 		return nil, false, nil, nil
+	}
+	// the time filters of a tag's definition are expressed against the time it was parsed at, not against refTime
+	rebased := false
+	for tn, td := range tagDetails {
+		if td.ReferenceTime.IsZero() || td.ReferenceTime.Equal(refTime) {
+			continue
+		}
+		if !rebased {
+			tagDetails = maps.Clone(tagDetails)
+			rebased = true
+		}
+		td.Conditions = td.Conditions.AtReferenceTime(td.ReferenceTime, refTime)
+		td.ReferenceTime = refTime
+		tagDetails[tn] = td
 	}
 	qs = qs.InlineTagFilters(tagDetails)
 
